@@ -1,6 +1,6 @@
 (* Property C18.  Only theorem statements closed by `exact`, each followed by Print Assumptions. *)
 From Coq Require Import List ListDec Bool PArith Permutation.
-From C18 Require Import Model Proofs ProofsInverse ProofsDir ProofsGraph ProofsPkg ProofsDirSound Statement.
+From C18 Require Import Model Proofs ProofsInverse ProofsDir ProofsGraph ProofsPkg ProofsDirSound ProofsSort ProofsDirExact ProofsPkgExact Statement.
 Import ListNotations.
 
 (* load_graph seeds the graph without error exactly when no two sources share a module name (any number of sources) *)
@@ -167,3 +167,30 @@ Theorem dir_sources_found : forall o t d l s,
               find_module o t [b] (s_mod s) = Found g /\ rel_ok o (s_path s) g = true.
 Proof. exact dir_sources_found_lemma. Qed.
 Print Assumptions dir_sources_found.
+
+(* DIR = -p PKG: every tree / depth / option combination with valid names and no module file beside a same-named
+   directory, every source of the directory rooted at cwd: find_modules_recursive pkg (its file entries) and
+   find_sources_in_dir pkg_dir yield exactly the same (module, path) set. *)
+Theorem dir_eq_package : Statement.dir_eq_package.
+Proof.
+  intros o t base p l_dir l_pkg W V S _ _ HD HB HP. unfold same_sources.
+  exact (dir_eq_package_lemma o t base p W V S l_dir l_pkg HD HB HP).
+Qed.
+Print Assumptions dir_eq_package.
+(* the directory walk keeps exactly the preferred files (n.pyi over n.py, as find_module does): keyfunc order *)
+Theorem dir_walk_prefers_stub : forall o t, wf_node (Dir t) = true -> no_shadow t = true ->
+  forall d l s, find_sources_in_dir o t d = Ok l -> In s l -> pref_path t (s_path s).
+Proof. intros o t W S d l s H Hin. exact (proj1 (fsd_pref o t W S _ _ _ _ H Hin)). Qed.
+Print Assumptions dir_walk_prefers_stub.
+Example dir_eq_package_ex :
+  let t := [((w_, NoExt), Dir [((Init, Py), File); ((a_, Py), File); ((a_, Pyi), File);
+                               ((b_, NoExt), Dir [((Init, Pyi), File); ((a_, Py), File)])])] in
+  wf_node (Dir t) = true /\ valid_names t = true /\ no_shadow t = true /\
+  exists l_dir l_pkg, find_sources_in_dir (classic []) t [dn w_] = Ok l_dir /\
+                      (forall s, In s l_dir -> s_base s = Some []) /\
+                      find_modules_recursive (classic []) t [[]] [w_] = Ok l_pkg /\ length l_dir = 4 /\ length l_pkg = 4.
+Proof.
+  repeat (split; [reflexivity|]). eexists. eexists. split; [vm_compute; reflexivity|]. split.
+  - intros s H. repeat (destruct H as [<-|H]; [reflexivity|]). contradiction.
+  - split; [vm_compute; reflexivity | split; reflexivity].
+Qed.
